@@ -134,6 +134,13 @@ def run_one(module, fn, case, timeout):
     f = getattr(importlib.import_module(module), fn)
     old = signal.signal(signal.SIGALRM, _alarm)
     signal.alarm(timeout)
+    # own the process-global generators (what random_state=None falls back to): a case replays identically whatever ran before it
+    import random as _random
+    import zlib as _zlib
+    import numpy as _np
+    _s = (_zlib.crc32(repr(case).encode()) ^ (int(os.environ.get("VERIF_SEED", "0") or 0) * 2654435761)) & 0xFFFFFFFF
+    _np.random.seed(_s)
+    _random.seed(_s)
     try:
         res = f(case) or {}
     except CaseTimeout:
